@@ -16,6 +16,12 @@ LEDGER_NOTE = ('Assumes: Python int is Z; callbacks do not mutate solver objects
                'holds for arbitrary residual values). Exceptions raised by library calls are outside the claim. The init.run_in_parallel=True branch of '
                'initialise_random_directions (batched evaluation through a Python list) is excluded by precondition and reported under C03/C04.')
 
+MODEL_NOTE = ('Domain M: per-point data are z3 arrays of symbolic length; objective values are binary64 with NaN, with comparisons modelled exactly '
+              '(total order on non-NaN values, every comparison with NaN false) and addition uninterpreted; vectors are opaque with uninterpreted sumsq / '
+              'h∘U / matvec and the real vector-space identities (b+s)+(p-s) == b+p, b+0 == b (machine arithmetic treated as mathematical for vector '
+              'arithmetic only). A-lib: np.argmin/np.where/np.append/.copy() semantics; arrays modelled by value, with freshness of stored snapshots as '
+              'separate syntactic obligations. Callbacks (h) are deterministic and side-effect free.')
+
 PROPS = {
     'C02': {'bundles': ['ledger'], 'level': 'proof',
             'level_text': 'Every objfun call goes through one contract-verified choke point; a ghost ledger (calls, points, budget) is proved '
@@ -23,6 +29,42 @@ PROPS = {
                           'methods, solve_main (x0 block + main loop) and the hard-restart loop of solve, for all inputs, iterations and restart histories '
                           '(loops by invariant, calls by contract, linear integer arithmetic).',
             'level_note': LEDGER_NOTE},
+    'C03': {'bundles': ['ledger', 'model'], 'level': 'proof',
+            'level_text': 'Two layers. Model (domain M): every mutator keeps whole records (point, residual, objective, sample count, evaluation number) '
+                          'together and get_final_results returns one whole record or the whole saved slot, for any state satisfying the class invariant. '
+                          'Call sites (domain L with opaque values): at each of the ~30 change_point/add_new_point/add_new_sample/save_point call sites the '
+                          'arguments are proved to be the point just evaluated, its first / i-th / mean residual and its point number; the returned tuple is '
+                          'followed through solve_main and the hard-restart merge of solve into the OptimResults fields.',
+            'level_note': LEDGER_NOTE + ' ' + MODEL_NOTE + ' The equality soln.x == evaluated x is in real arithmetic (as the property says: up to rounding of the '
+                          'base-point arithmetic); with projections it additionally uses numeric assumption N4 (Dykstra re-applied to its own output returns it).',
+            'not_decided': ['init.run_in_parallel=True (known finding D6/D23)']},
+    'C04': {'bundles': ['ledger', 'model'], 'level': 'proof',
+            'level_text': 'Callers (no floats): a ghost flag "an evaluated point has not been offered to the model yet" is proved false at every loop back-edge, '
+                          'break and return of solve_main and of eight Controller methods (except the deliberate NaN exit). Model: change_point / add_new_point / '
+                          'add_new_sample / save_point / get_final_results keep the NaN-aware best-so-far relations.',
+            'level_note': LEDGER_NOTE + ' ' + MODEL_NOTE + ' Numeric assumptions N1 (distance of xopt to itself is 0, so distance-based replacement never picks the '
+                          'incumbent) and N2 (ratio > 0 implies the new point is better than the incumbent it may overwrite) are stated, not proved. The merge '
+                          'objmin2 < objmin across hard restarts is a float comparison outside domain L.',
+            'not_decided': ['N1, N2 (numeric)', 'init.run_in_parallel=True (known finding D6/D23)']},
+    'C08': {'bundles': ['ledger', 'model'], 'level': 'proof',
+            'level_text': 'Partial claim: (i) budget/counter proofs hold for arbitrary returned values (residuals are havoc in domain L); (ii) NaN never displaces a '
+                          'finite stored/saved value in Model (exact NaN semantics); (iii) the NaN-at-trial-step exit is flagged EXIT_EVAL_ERROR; (v) no try body '
+                          'reaches objfun, so its exceptions unwind unchanged.',
+            'level_note': LEDGER_NOTE + ' ' + MODEL_NOTE + ' NOT decided: "terminates without raising" for every fault position (totality of LAPACK/NumPy on non-finite '
+                          'data) and "returns a finite x".',
+            'not_decided': ['never raises (library totality)', 'returns a finite x']},
+    'C11': {'bundles': ['ledger', 'model'], 'level': 'proof',
+            'level_text': 'Partial claim: the pair (Jacobian, evaluation numbers) is written together by the fit, copied together into the saved slot, returned together '
+                          'by get_final_results, kept together through solve_main and the hard-restart merge, and un-scaled column by column exactly once; the '
+                          'evaluation-number snapshot is a fresh copy.',
+            'level_note': LEDGER_NOTE + ' ' + MODEL_NOTE + ' ASSUMED, not proved: solve_geom_system returns the interpolant / least-squares fit (LAPACK QR and triangular '
+                          'solves are opaque), hence "equals A for linear residuals" is a consequence of an assumption.',
+            'not_decided': ['the matrix equals the fit (LAPACK)', 'make_full_rank SVD perturbation']},
+    'C17': {'bundles': ['model'], 'level': 'proof',
+            'level_text': 'The bookkeeping statement is a class invariant of Model, established by __init__ and preserved by each of the seven mutators from any state '
+                          'satisfying it (induction over all operation histories), with full-view postconditions (every other record unchanged) and exact NaN semantics.',
+            'level_note': MODEL_NOTE + ' The running mean is stated as wavg(n/(n+1), old mean, new sample) — the identity with the arithmetic mean is real arithmetic.',
+            'not_decided': []},
     'C10': {'bundles': ['ledger'], 'level': 'proof',
             'level_text': 'One obligation per exit site: MAXFUN flag implies nf == maxfun, the max-restarts message implies that many runs, '
                           'nruns == restarts + 1 via a ghost restart counter checked at every break/continue/return of solve_main and solve.',
